@@ -273,14 +273,16 @@ impl Iterator for MarkdownIterator<'_> {
             }
 
             // gather optional per-test config
-            let config_lines: Vec<(usize, String)> = if let Some(config) = config
+            let config_lines: Vec<(usize, String)> = match config
                 .strip_prefix('{')
                 .and_then(|s| s.strip_suffix('}'))
-                .and_then(|s| if s.is_empty() { None } else { Some(s) })
             {
-                vec![(self.line_index - 1, config.into())]
-            } else {
-                vec![]
+                Some("") => vec![],
+                Some(config) => vec![(self.line_index - 1, config.into())],
+                // not enclosed in braces (unterminated, or followed by more text): kept as it
+                // is, so that it is reported as an invalid configuration and not ignored
+                None if !config.is_empty() => vec![(self.line_index - 1, config.into())],
+                None => vec![],
             };
 
             // gather leading comments and then the code until the closing
